@@ -58,7 +58,7 @@ func topFrame(stack string) string {
 	return "unknown"
 }
 
-func runOp(op string, data []byte) (class, detail string) {
+func runOp(op string, data []byte, path string) (class, detail string) {
 	defer func() {
 		if r := recover(); r != nil {
 			st := string(debug.Stack())
@@ -99,6 +99,12 @@ func runOp(op string, data []byte) (class, detail string) {
 		if err == nil {
 			_, err = api.Keywords(rs(), childConf(true))
 		}
+	case "sig":
+		_, err = api.ValidateSignatures(path, false, childConf(true))
+	case "sigall":
+		_, err = api.ValidateSignatures(path, true, childConf(true))
+	case "sigfile":
+		_, err = api.ValidateSignaturesFile(path, true, true, childConf(true))
 	case "fonts":
 		err = api.ExtractFonts(rs(), nil, func(pdfcpu.Font) error { return nil }, childConf(true))
 	default:
@@ -123,6 +129,10 @@ func clean1(s string) string {
 
 func childMain() {
 	api.DisableConfigDir()
+	// signature validation needs a trust store directory: an empty one, made by the parent
+	if d := os.Getenv("C08_CERTDIR"); d != "" {
+		model.TrustedCertDir = d
+	}
 	// a runaway recursion should die quickly instead of eating 1 GB first
 	debug.SetMaxStack(64 << 20)
 	lim := syscall.Rlimit{Cur: 8 << 30, Max: 8 << 30}
@@ -145,7 +155,7 @@ func childMain() {
 		for _, op := range ops {
 			fmt.Fprintf(out, "B\t%s\t%s\n", id, op)
 			out.Flush()
-			class, detail := runOp(op, data)
+			class, detail := runOp(op, data, path)
 			fmt.Fprintf(out, "E\t%s\t%s\t%s\t%s\n", id, op, clean1(class), clean1(detail))
 			out.Flush()
 		}
